@@ -35,7 +35,7 @@ Note(v) == bad' = IF v = {} THEN bad ELSE Append(bad, [tid |-> E.tid, line |-> l
 
 Step ==
     /\ l <= Len(Tr) /\ l' = l + 1
-    /\ (E.e \notin {"Begin", "op", "reload"} => UNCHANGED <<cfgr, apir>>)
+    /\ (E.e \notin {"Begin", "op", "reload", "down"} => UNCHANGED <<cfgr, apir>>)
     /\ CASE E.e = "Begin" ->
               /\ table' = Empty /\ want' = E.cfg /\ eors' = {} /\ touched' = {} /\ up' = FALSE /\ bad' = bad
               /\ cfgr' = E.cfg /\ apir' = Empty
@@ -44,7 +44,12 @@ Step ==
               /\ bad' = bad      \* (the reported Adj-RIB-Out is judged at operator calls, End-of-RIB and quiescence: a reload that
                                  \*  re-establishes the session only applies the route difference once the new session starts)
          [] E.e = "down" ->
-              /\ table' = Empty /\ eors' = {} /\ touched' = {} /\ up' = FALSE /\ UNCHANGED want /\ bad' = bad
+              \* without adj-rib-out the API-announced routes do not survive the session, the configured ones do (C11: "configured
+              \* routes plus API-announced routes not since withdrawn, when adj-rib-out is kept")
+              /\ table' = Empty /\ eors' = {} /\ touched' = {} /\ up' = FALSE /\ bad' = bad
+              /\ want' = IF E.hascache THEN want ELSE cfgr
+              /\ apir' = (IF E.hascache THEN apir ELSE Empty)
+              /\ cfgr' = cfgr
          [] E.e = "op" ->
               /\ want' = IF E.name = "Announce" THEN [want EXCEPT ![E.k] = E.a] ELSE [want EXCEPT ![E.k] = None]
               /\ apir' = IF E.name = "Announce" THEN [apir EXCEPT ![E.k] = E.a] ELSE [apir EXCEPT ![E.k] = None]
